@@ -120,7 +120,7 @@ pub fn comments(src: &str) -> Vec<String> {
 /// both sides (re-indentation, trailing blanks), CR removed, empty
 /// leading/trailing lines of a block comment kept.
 pub fn normalize_comment(c: &str) -> String {
-    let c = c.replace('\r', "");
+    let c = c.replace("\r\n", "\n");
     let lines: Vec<&str> = c.split('\n').map(|l| l.trim()).collect();
     lines.join("\n").trim().to_string()
 }
@@ -128,7 +128,8 @@ pub fn normalize_comment(c: &str) -> String {
 /// Words of a comment with the comment markers removed (for wrap_comments /
 /// normalize_comments): `//`, `/*`, `*/`, leading `*` of continuation lines.
 pub fn comment_words(c: &str) -> Vec<String> {
-    let c = c.replace('\r', "");
+    // CRLF is a line terminator; a lone carriage return is white space between two words
+    let c = c.replace("\r\n", "\n").replace('\r', " ");
     let mut body = String::new();
     if let Some(rest) = c.strip_prefix("//") {
         body.push_str(rest);
